@@ -142,6 +142,42 @@ def c116(ctx):
         ctx.check(R, f, "moves-to-neighbour", ok, "an exhausted child is followed by reposition() to its neighbour", "%s never moves on from an exhausted child" % m)
 
 
+    # the binary search of seek() classifies a child as `entirely before the key` only by a key it actually holds: the lower end of
+    # the search interval is raised only on the Some edge of the probed child's key() -- an empty child says nothing about where the
+    # key falls, and skipping to its right loses every entry of the children on its left
+    f = ctx.fn(R, Cc + "seek")
+    if f:
+        rp = P.call_points(f, r"ConcatenatingCursor::reposition$")
+        probes = [p_ for p_ in rp if P.reach(f, P.after(f, p_), [p_]) is not None]     # reposition(mid) inside the search loop
+        # the interval's lower end: a usize local written in the loop with `mid + 1`
+        raised = []
+        for b in f.blocks:
+            for i, st in enumerate(b.st):
+                if st["s"] != "=" or st["lhs"]["p"] or "usize" not in f.locals[st["lhs"]["l"]] or not f.local_name(st["lhs"]["l"]):
+                    continue
+                if st["rv"]["r"] != "use":
+                    continue
+                srcs = P.origins(f, st["rv"]["a"], through_calls=P._Opt(True, False))
+                if any(x["k"] == "bin" and x["op"].startswith("Add") and x["st"]["rv"]["b"].get("k") == "const" and x["st"]["rv"]["b"]["c"].get("v") == 1 for x in srcs) \
+                        and P.reach(f, P.after(f, (b.idx, i)), [(b.idx, i)]) is not None and probes:
+                    raised.append((b.idx, i))
+        if probes:
+            ctx.floor(R, "seek: writes that raise the lower end of the search interval", len(raised), 1)
+        for w in raised:
+            some = False
+            for bb, lab in P.guards_of(f, w):
+                d = f.blocks[bb].term["discr"]
+                if d.get("k") not in ("copy", "move"):
+                    continue
+                for (_p, kind, p_) in P.defs(f).of(d["pl"]["l"]):
+                    if kind == "assign" and p_["rv"]["r"] == "discr" and lab == "sw:1" and \
+                            any(s_["k"] == "call" and re.search(r"Cursor>?::key$", s_["callee"]) for s_ in P.origins(f, {"k": "copy", "pl": {"l": p_["rv"]["pl"]["l"], "p": []}})):
+                        some = True
+            ctx.check(R, f, "bisect-by-held-keys-only", some, "the search interval is narrowed from the left only past a child whose last key was read",
+                      "seek's binary search moves right of a probed child also when that child is empty: an empty child between two non-empty ones sends "
+                      "the search past the child that holds the key ([A,B] [] [E,F]: seek(A) answers E)", pt=w)
+
+
 def key_some_guard(f, pt, recv_names):
     """pt is dominated by an edge on which key()/key_value() of the same receiver returned Some."""
     for bb, lab, srcs in K.guards(f, pt):
